@@ -92,6 +92,7 @@ pub struct Finding {
     pub m_msg: Option<String>,
     pub m_fault: Option<String>,
     pub m_args: Option<String>,
+    pub m_site: Option<String>,
 }
 
 pub fn load_findings(verif_dir: &str) -> (Vec<Finding>, Vec<String>) {
@@ -104,7 +105,7 @@ pub fn load_findings(verif_dir: &str) -> (Vec<Finding>, Vec<String>) {
     let mut out = vec![];
     for f in v["open"].as_array().cloned().unwrap_or_default() {
         let g = |k: &str| f["match"][k].as_str().map(|s| s.to_string());
-        out.push(Finding { id: f["id"].as_str().unwrap_or("").into(), property: f["property"].as_str().unwrap_or("").into(), what: f["what"].as_str().unwrap_or("").into(), m_scenario: g("scenario"), m_msg: g("msg"), m_fault: g("fault"), m_args: g("args") });
+        out.push(Finding { id: f["id"].as_str().unwrap_or("").into(), property: f["property"].as_str().unwrap_or("").into(), what: f["what"].as_str().unwrap_or("").into(), m_scenario: g("scenario"), m_msg: g("msg"), m_fault: g("fault"), m_args: g("args"), m_site: g("site") });
     }
     let fixed = v["fixed"].as_array().cloned().unwrap_or_default().iter().filter_map(|x| x.as_str().map(|s| s.to_string())).collect();
     (out, fixed)
@@ -131,6 +132,11 @@ impl Finding {
                 return false;
             }
         }
+        if let Some(s) = &self.m_site {
+            if !v.hit_sites.iter().any(|h| h == s) {
+                return false;
+            }
+        }
         if let Some(s) = &self.m_fault {
             if !v.spec.faults.iter().any(|f| f.call.contains(s.as_str())) {
                 return false;
@@ -154,6 +160,7 @@ pub fn violation_json(prop: &str, v: &Violation) -> Value {
         "trace": v.trace,
         "snapshot_after": v.snap,
         "stderr": v.stderr,
+        "altered_calls": v.hit_sites,
     })
 }
 
@@ -195,6 +202,7 @@ pub fn finish(ctx: &Ctx, rep: Report) -> i32 {
     let mut known_hit: BTreeMap<String, usize> = BTreeMap::new();
     let mut new_viol = 0usize;
     let mut lines = vec![];
+    let mut groups: BTreeMap<String, usize> = BTreeMap::new();
     for (i, v) in all_viol.iter().enumerate() {
         if let Some(f) = findings.iter().find(|f| f.matches(&ctx.prop, v)) {
             let c = known_hit.entry(f.id.clone()).or_insert(0);
@@ -205,6 +213,7 @@ pub fn finish(ctx: &Ctx, rep: Report) -> i32 {
             continue;
         }
         new_viol += 1;
+        *groups.entry(format!("{} | {}", v.msgs.first().cloned().unwrap_or_default(), v.hit_sites.first().cloned().unwrap_or_default())).or_insert(0) += 1;
         if new_viol <= 10 {
             let _ = std::fs::create_dir_all(&rdir);
             let path = format!("{}/{:03}-{}.json", rdir, i, sanitize(&v.scen.name));
@@ -212,6 +221,9 @@ pub fn finish(ctx: &Ctx, rep: Report) -> i32 {
             lines.push(format!("VIOLATION property={} replay={}", ctx.prop, path));
             eprintln!("  -> {} [{}] {:?}", v.scen.cmdline(), v.outcome, v.msgs.iter().take(3).collect::<Vec<_>>());
         }
+    }
+    for (g, c) in groups.iter().take(60) {
+        eprintln!("  [{}x] {}", c, g);
     }
     for (i, (msg, detail)) in rep.plain_violations.iter().enumerate() {
         let fake = findings.iter().find(|f| f.property == ctx.prop && f.m_msg.as_ref().map(|m| msg.contains(m.as_str())).unwrap_or(false) && f.m_scenario.is_none() && f.m_fault.is_none());
@@ -369,4 +381,16 @@ pub fn simple_judge(violations: Vec<String>, ex: &Exec, nontrivial: bool) -> Jud
 
 pub fn drivers() -> [&'static str; 2] {
     ["parfile", "parblock"]
+}
+
+/// run every scenario once under each of the given base policies
+pub fn scen_batch(ctx: &Ctx, scens: Vec<Scenario>, policies: &[Policy], judge: crate::explore::Judge) -> Stats {
+    let mut jobs = vec![];
+    for s in scens {
+        let s = std::sync::Arc::new(s);
+        for p in policies {
+            jobs.push((s.clone(), RunSpec::base(p.clone()), 0usize));
+        }
+    }
+    crate::explore::explore(&ctx.pool, jobs, judge)
 }
